@@ -184,6 +184,34 @@ def oracle_c19(line, go):
     return None
 
 
+def oracle_c18(line, go):
+    """Peer limits: no frame larger than the peer's SETTINGS_MAX_FRAME_SIZE; one ACK per SETTINGS frame, in order."""
+    cfg, evs = parse_server_case(line)
+    groups, _ = parse_server_result(go)
+    limit = 16384
+    acks_due = 0
+    for i, ev in enumerate(evs):
+        g = groups[i] if i < len(groups) else []
+        if ev["k"] == "F" and ev["kind"] == "S" and ev["sid"] == 0 and not (ev["flags"] & 1):
+            for (k, v) in ev["settings"]:
+                if k == 5 and 16384 <= v <= 16777215:
+                    limit = v
+            acks_due += 1
+        for it in g:
+            if it == "SA":
+                acks_due -= 1
+                if acks_due < 0:
+                    return "SETTINGS ACK without a SETTINGS frame to acknowledge"
+            elif (it.startswith("H") or it.startswith("D")) and it.count(":") == 2:
+                sid, es, payload = it[1:].split(":")
+                if hexlen(payload) > limit:
+                    return "%s frame of %d bytes on stream %s exceeds the peer's MAX_FRAME_SIZE %d" % (
+                        "HEADERS" if it[0] == "H" else "DATA", hexlen(payload), sid, limit)
+        if g and g[-1] not in ("-",) and "E" not in g and ev["k"] == "F" and ev["kind"] == "S" and acks_due > 0 and not any(x.startswith("G") and ":" in x for x in g):
+            return "SETTINGS frame not acknowledged in the step that processed it"
+    return None
+
+
 SERVER_ORACLES = {
-    "C06": oracle_c06, "C10": oracle_c10, "C13": oracle_c13, "C14": oracle_c14, "C17": oracle_c17, "C19": oracle_c19,
+    "C06": oracle_c06, "C10": oracle_c10, "C13": oracle_c13, "C14": oracle_c14, "C17": oracle_c17, "C19": oracle_c19, "C18": oracle_c18,
 }
